@@ -251,7 +251,7 @@ def gen_set(fl, rnd, batch):
             elif c == "Linear":
                 t = fl.Linear(f"t{j}", [G.snap(rnd.uniform(-2, 2), 3) for _ in range(nin + rnd.choice([0, 1]))], engine)
             else:
-                t = fl.Function.create(f"t{j}", rnd.choice(["in0 * 2.0 + 1.0", "sin ( in0 ) / 2.0", "in0 * 0.5 - x", "in0 ^ 2.0", "x * 3.0"]), engine)
+                t = fl.Function.create(f"t{j}", rnd.choice(["in0 * 2.0 + 1.0", "sin ( in0 ) / 2.0", "in0 * 0.5 - x", "in0 ^ 2.0", "x * 3.0", "x", "in0"]), engine)
         elif fam == "tsukamoto":
             t = G.build_term(fl, G.shape_term(rnd, f"t{j}", lo, hi, kinds=G.MONOTONIC))
         else:
@@ -311,6 +311,8 @@ def run(ctx):
             engine, specs, acts, aggregation, family = gen_set(fl, rnd, batch)
             agg_op = getattr(fl, aggregation)() if aggregation else None
             out = fl.Aggregated("o", -3.0, 7.0, agg_op, [fl.Activated(t, d) for t, d in acts])
+            held = [(v, np.array(v.value, dtype=float, copy=True)) for v in engine.input_variables]
+            degrees_before = [np.array(a.degree, dtype=float, copy=True) for a in out.terms]
             for cls in (fl.WeightedAverage, fl.WeightedSum):
                 for type_ in ("Automatic", "TakagiSugeno", "Tsukamoto"):
                     how = (i + len(type_)) % 3
@@ -344,6 +346,17 @@ def run(ctx):
                                     # (if the monitor already blamed the zero-degree NaN mechanism this is the same defect seen metamorphically)
                                     ctx.violation("inserting a zero-degree activation changes the result" + (" (Tsukamoto, NaN)" if math.isnan(float(v)) and type_ != "TakagiSugeno" else ""), {"defuzzifier": cls.__name__, "type": type_, "set": out.parameters(), "inserted": t.name, "position": pos}, float(u), float(v))
                                     break
+            # defuzzifying reads: neither the input values nor the degrees of the fuzzy output are different afterwards
+            ctx.evaluated()
+            for v, before in held:
+                now = np.asarray(v.value, dtype=float)
+                if now.shape != before.shape or not bool(np.all((now == before) | ((now != now) & (before != before)))):
+                    ctx.violation("defuzzifying a fuzzy output changes the value of an input variable (a term value that is the variable's own array is written into)", {"variable": v.name, "set": out.parameters()}, before, now)
+            for a, before in zip(out.terms, degrees_before):
+                now = np.asarray(a.degree, dtype=float)
+                if now.shape != before.shape or not bool(np.all((now == before) | ((now != now) & (before != before)))):
+                    ctx.violation("defuzzifying a fuzzy output changes the degree of one of its activations", {"term": a.term.name, "set": out.parameters()}, before, now)
+            ctx.hit("law:defuzzification leaves inputs and degrees untouched")
             out.grouped_terms()
             for _, t in specs:
                 out.activation_degree(t)
@@ -394,9 +407,24 @@ def run(ctx):
                         ctx.violation("infer_type does not infer the kind from the terms", {"terms": [str(t) for t in members]}, want, got)
             if i < 3:
                 ctx.sample("set", {"family": family, "aggregation": aggregation, "set": out.parameters(), "terms": [str(t) for _, t in specs], "WeightedAverage": safe(lambda: fl.WeightedAverage().defuzzify(out))})
+        # fuzzy outputs with more than 64 distinct terms (stacked accumulation): constants, one activation each, scalar and batch
+        for i, rnd in ctx.cases("many terms", ctx.scale(6, 200)):
+            k = rnd.choice([65, 66, 80, 129, 200])
+            batch = rnd.choice([0, 3])
+            acts = []
+            for j in range(k):
+                deg = (lambda: rnd.choice([0.0, 0.0, 0.25, 1.0, rnd.random()]))
+                acts.append(fl.Activated(fl.Constant(f"k{j}", G.snap(rnd.uniform(-3, 7), 3)), np.array([deg() for _ in range(batch)]) if batch else deg()))
+            for cls in (fl.WeightedAverage, fl.WeightedSum):
+                for agg_name in (None, "Maximum", "AlgebraicSum"):
+                    try:
+                        cls().defuzzify(fl.Aggregated("o", -3.0, 7.0, getattr(fl, agg_name)() if agg_name else None, list(acts)))
+                    except Exception:
+                        pass
+            ctx.hit("workload:more than 64 distinct terms")
         probe.report(ctx)
         reach.report(ctx)
-    ctx.require("event:defuzzification gave up part-way")
+    ctx.require("event:defuzzification gave up part-way", "workload:more than 64 distinct terms", "law:defuzzification leaves inputs and degrees untouched")
     ctx.require("hook:WeightedAverage.defuzzify", "hook:WeightedSum.defuzzify", "hook:Aggregated.grouped_terms", "hook:Aggregated.activation_degree", "law:zero-degree insertion", "piece:mixed-kinds", "piece:zero-degree-member", "piece:repeated-term-grouped", "piece:nan:no-activations", "piece:nan:all-weights-zero", "law:average-of-constants-bounded", "calls:WeightedAverage:batch", "calls:WeightedSum:batch", "event:aggregated object reused with other contents")
     for k in ("WeightedAverage", "WeightedSum"):
         ctx.require(f"piece:{k}:Automatic->TakagiSugeno", f"piece:{k}:Automatic->Tsukamoto", f"piece:{k}:Automatic->Automatic", f"piece:{k}:TakagiSugeno->TakagiSugeno", f"piece:{k}:Tsukamoto->Tsukamoto")
